@@ -4,7 +4,9 @@ import Comdex.Model.GenesisTable
 
 Lines (tab separated):
   gen.begin   <name> <seed>
-  gen.import  ok|panic                         InitChain of the fresh application from the exported genesis
+  gen.validate <module> err <text>             the module's ValidateGenesis refuses the state the module exported
+  gen.import  ok|panic <module> <text>         InitChain of the fresh application from the exported genesis (module = first comdex
+                                               module on the panicking stack)
   gen.kv      A|B <module> <keyhex> <valhex>   one KV pair of a DeFi module store (A = original, B = re-imported)
   gen.param   A|B <module> <keyhex> <valhex>   one entry of the module's parameter subspace
   gen.check   <module> <firstbytehex>          evaluate every declared prefix of the module starting with that byte
@@ -26,7 +28,7 @@ the code did), and the round-trip monitors are evaluated on the real stores:
   continuation_equal:<op>               a continuation operation has the same outcome / id on both chains
   continuation_equal:balances           all balances agree after the continuation
   custody_roundtrip                     every bank balance (users, module accounts) is the same right after the import
-  import_ok                             InitChain accepted the exported genesis
+  import_accepts_export:<module>        the module's ValidateGenesis and InitGenesis accept what its ExportGenesis produced
 -/
 -- DRIVER: prefix=gen ns=Comdex.Drv.Genesis
 namespace Comdex.Drv.Genesis
@@ -145,7 +147,8 @@ def checkParams (st : St) (seq : String) (mod : String) : List String :=
 def handle (st : St) (seq : String) (f : List String) : St × List String :=
   match f with
   | ["gen.begin", _, _] => ({}, [])
-  | ["gen.import", o] => (st, if o = "ok" then [] else [s!"MON\t{seq}\timport_ok"])
+  | "gen.import" :: o :: mod :: _ => (st, if o = "ok" then [] else [s!"MON\t{seq}\timport_accepts_export:{mod}"])
+  | "gen.validate" :: mod :: o :: _ => (st, if o = "ok" then [] else [s!"MON\t{seq}\timport_accepts_export:{mod}"])
   | ["gen.kv", side, mod, k, v] =>
     if side != "A" && side != "B" then (st, [s!"BAD\t{seq}\tside"]) else
     let st := { st with kvs := ⟨side, mod, k, v⟩ :: st.kvs }
